@@ -77,6 +77,7 @@ func genC17(seed uint64, tier string) *Plan {
 	}
 	conc.Sub = append(conc.Sub, late...)
 	p.Ops = append(p.Ops, conc)
+	maybeYield(r, p, 0.4)
 	return p
 }
 
